@@ -33,7 +33,7 @@ class C18(Check):
                    "the pool stores the parsed ethernet object and emission re-packs it, the model stores bytes: they agree where pack(parse(frame)) = frame (C14's round trip; C12-3/C12-4 are the known exceptions)",
                    "release towards the controller is modelled for ONE output:CONTROLLER in the action list (op usectl); an action list with several CONTROLLER outputs, or output:TABLE causing a further table miss while the old slot is occupied, is not an op of the model (the pool bound `bounded` does not depend on it: alloc never exceeds max)"]
     rule = ("case = (max_buffers 0..4, miss_send_len, history over {miss arrival, output:CONTROLLER(max_len) arrival, packet_out(buffer id), flow_mod(buffer id), the same with an empty action list (drop), "
-            "stale/bogus/zero ids, set_config}); corpus = all histories of length <= 4 over a 10-op alphabet with pool sizes 0..2; non-trivial = some id is handed out and later used, or the pool fills")
+            "stale/bogus/zero ids, set_config, a flow_mod WITHOUT buffer id installing an entry that covers an ingress port (model: `other`, pool untouched)}); corpus = all histories of length <= 4 over an 11-op alphabet with pool sizes 0..2; non-trivial = some id is handed out and later used, or the pool fills")
 
     def setup(self):
         poxenv.boot()
@@ -43,7 +43,7 @@ class C18(Check):
     ALPHA = [{"op": "arrive", "i": 0, "len": 20, "port": 1, "dl": None}, {"op": "arrive", "i": 1, "len": 14, "port": 2, "dl": 3},
              {"op": "use", "id": 1, "via": "po"}, {"op": "use", "id": 2, "via": "fm"}, {"op": "use", "id": 0, "via": "po"},
              {"op": "use", "id": 3, "via": "po"}, {"op": "setmiss", "n": 16}, {"op": "usectl", "id": 1, "dl": 7, "via": "po"},
-             {"op": "drop", "id": 1, "via": "po"}, {"op": "use", "id": 1, "via": "pod"}]
+             {"op": "drop", "id": 1, "via": "po"}, {"op": "use", "id": 1, "via": "pod"}, {"op": "install", "inport": 2, "out": 4}]
 
     def corpus(self):
         cases = []
@@ -54,11 +54,16 @@ class C18(Check):
                     cases.append({"max": mx, "miss": 5, "ops": list(ops)})
         return cases
 
-    def _rand_op(self, rng, mx, k):
+    def _rand_op(self, rng, mx, k, covered=()):
         r = rng.random()
+        if r < 0.42:
+            port = rng.randint(1, 4)
+            # a port covered by an installed entry never sees a table miss: its packets reach the controller by output:CONTROLLER
+            dls = [0, 1, 14, 128, 65535, rng.randint(0, 300)] + ([] if port in covered else [None, None])
+            return {"op": "arrive", "i": k, "len": rng.choice([14, 15, 20, 64, 128, 129, 200, rng.randint(14, 300)]), "port": port, "dl": rng.choice(dls)}
         if r < 0.45:
-            return {"op": "arrive", "i": k, "len": rng.choice([14, 15, 20, 64, 128, 129, 200, rng.randint(14, 300)]), "port": rng.randint(1, 4),
-                    "dl": rng.choice([None, None, 0, 1, 14, 128, 65535, rng.randint(0, 300)])}
+            p = rng.randint(1, 4)
+            return {"op": "install", "inport": p, "out": rng.choice([q for q in (1, 2, 3, 4) if q != p])}
         if r < 0.52:
             return {"op": "drop", "id": rng.choice([0, 1, 1, 2, 2, 3, mx, mx + 1, rng.randint(0, mx + 2)]), "via": rng.choice(["po", "po", "fm"])}
         if r < 0.75:
@@ -73,7 +78,12 @@ class C18(Check):
         for _ in range(n):
             mx = rng.randint(0, 4)
             L = rng.choice([3, 8, 20, 60, rng.randint(1, 60)])
-            yield {"max": mx, "miss": rng.choice([0, 5, 128, 65535]), "ops": [self._rand_op(rng, mx, k) for k in range(L)]}
+            ops, covered = [], set()
+            for k in range(L):
+                op = self._rand_op(rng, mx, k, covered)
+                if op["op"] == "install": covered.add(op["inport"])
+                ops.append(op)
+            yield {"max": mx, "miss": rng.choice([0, 5, 128, 65535]), "ops": ops}
 
     def impl(self, case):
         of = self.of
@@ -134,6 +144,12 @@ class C18(Check):
                     outs.append({"k": "unexpected", "status": st, "emitted": len(em), "replies": pins(rep)})
                 elif em: outs.append({"k": "emit", "fr": em[0][1].hex(), "port": em[0][0]})
                 else: outs.append({"k": "none"})
+            elif op["op"] == "install":
+                # a flow_mod WITHOUT a buffer id installs an entry that covers every packet of one ingress port (and would send it
+                # somewhere else than a later buffer release says): the pool must not care what the table holds
+                st, rep, em = node.send(of.ofp_flow_mod(match=of.ofp_match(in_port=op["inport"]), priority=0x9000, command=of.OFPFC_ADD,
+                                                        actions=[of.ofp_action_output(port=op["out"])]))
+                outs.append({"k": "none"} if (st == "ok" and not rep and not em) else {"k": "unexpected", "status": st, "emitted": len(em), "replies": pins(rep)})
             else:
                 st, rep, em = node.send(of.ofp_set_config(miss_send_len=op["n"]))
                 outs.append({"k": "none"} if (st == "ok" and not rep and not em) else {"k": "unexpected", "status": st})
@@ -147,6 +163,7 @@ class C18(Check):
             elif op["op"] == "use": ops.append({"op": "use", "id": op["id"]})
             elif op["op"] == "drop": ops.append({"op": "drop", "id": op["id"]})
             elif op["op"] == "usectl": ops.append({"op": "usectl", "id": op["id"], "dl": op["dl"]})
+            elif op["op"] == "install": ops.append({"op": "other"})
             else: ops.append({"op": "setmiss", "n": op["n"]})
         return {"max": case["max"], "miss": case["miss"], "ops": ops}
 
@@ -195,6 +212,8 @@ class C18(Check):
                     if o["k"] != "emit" or o["fr"] != fr.hex() or o["port"] != port: return "using live buffer %d did not emit its packet" % op["id"]
                 else:
                     if o["k"] != "none": return "using unknown/used buffer id emitted a packet"
+            elif op["op"] == "install":
+                if o["k"] != "none": return "a flow_mod without a buffer id produced output"
             else:
                 miss = op["n"]
                 if o["k"] != "none": return "set_config produced output"
